@@ -162,6 +162,14 @@ def run(ctx):
     ctx.assume("identities on // and % are read over the integers (tagged [Z] in "
                "the evidence), as the property text does for x//1")
 
+    operator_rules(ctx, model)
+
+
+def operator_rules(ctx, model):
+    """the rule instances about the overloaded operators; other properties whose
+    code *builds its results with these operators* (the parser's unary minus,
+    the differentiator's rules, the smart constructors' zero tests) carry them
+    too: an operator that changes the value of what it builds breaks them all"""
     E = model.cls(f"{PRIM}:Expression")
     n_methods = 0
     accepted_z = []
@@ -633,6 +641,11 @@ NOT_ABSORBING = {("Power", "base"): "0 ** 0 == 1",
 SINGLETON_IS_CHILD = {"Sum", "Product", "BitwiseOr", "BitwiseXor", "BitwiseAnd"}
 
 
+def _short_rv(v):
+    s_ = repr(v)
+    return s_ if len(s_) < 90 else s_[:87] + "..."
+
+
 def _truthiness(ctx, model):
     nt = model.nodes
     E = nt.expression
@@ -685,6 +698,27 @@ def _truthiness(ctx, model):
             raise AnalysisError(f"{n.name}.__bool__ depends on '{f}': the rule "
                                 "has no algebraic fact about that operand")
 
+        has_absorbing = any((n.name, f) in ABSORBING for f in n.field_names)
+        if not has_absorbing and n.name not in SINGLETON_IS_CHILD:
+            # no operand of this node forces its value to zero, so the node may
+            # never be falsy: whatever the method computes, any way out that
+            # is not the constant True is unsound
+            for ps in summarize(mem.node, node_param=False, loop_mode="01"):
+                if ps.term == "return" and ps.retval != ("const", True):
+                    why = "; ".join(f"{n.name}: {v}" for (c_, f_), v in
+                                    NOT_ABSORBING.items() if c_ == n.name)
+                    bad = (f"it can answer False ({_short_rv(ps.retval)}), but "
+                           f"no operand of a {n.name} being zero (or anything "
+                           "about its structure) makes its value zero in every "
+                           "environment" + (f" ({why})" if why else ""))
+            ctx.ob(f"E/{n.name}.__bool__/falsy-means-zero", bad is None,
+                   mem.owner.loc(mem.node),
+                   f"{n.name}.__bool__ is always true" if bad is None else
+                   f"{mem.owner.name}.__bool__ (as {n.name}): {bad}; the "
+                   "construction shortcuts read a falsy operand as zero (x + e "
+                   "-> x, x * e -> 0, x ** e -> 1), so they change the value of "
+                   "the tree")
+            continue
         for ps in summarize(mem.node, node_param=False, loop_mode="01"):
             if ps.term != "return":
                 continue
